@@ -7,6 +7,7 @@ proved here are the rules that make up the prescribed outcome and the absence of
 crashes on acyclic definitions.
 -/
 import Mistral.Lemmas.Engine
+import Mistral.Lemmas.Affected
 import Mistral.Props.C04
 
 namespace Mistral.Props.C01
@@ -214,5 +215,126 @@ theorem no_crash_on_acyclic_partial (sp : Spec) (rk : String → Nat)
                 · split at hs
                   · rw [completeTask_crashed] at hs; simp [hc] at hs
                   · simp [hc] at hs
+
+/-! ### the wake-up of a join by the completion of a direct predecessor -/
+
+/-- all on-clause targets of a task, as `find_outbound_task_names` sees them -/
+def outsOf (sp : Spec) (n : String) : List String :=
+  match sp.graph.tasks.find? (·.name == n) with
+  | some t => outNames sp.graph t
+  | none => []
+
+/-- the budget of the walk over indirectly affected tasks -/
+def walkFuel (sp : Spec) : Nat := (sp.graph.tasks.length + 1) * (sp.graph.tasks.length + 1) + 8
+
+theorem affected_contains_direct (sp : Spec) (w : World) (start j : String)
+    (hj : joinWithRow sp w j = true)
+    (hknown : (sp.graph.tasks.find? (·.name == j)).isNone = false)
+    (hne : j ≠ start)
+    (hpos : ∃ pre post, outsOf sp start = pre ++ j :: post ∧ pre.length < walkFuel sp) :
+    j ∈ affected sp w start := by
+  obtain ⟨pre, post, hsplit, hlen⟩ := hpos
+  have h2 : affected sp w start =
+      affected.go sp w (outsOf sp) (walkFuel sp) (outsOf sp start) [start] [] := rfl
+  rw [h2, hsplit]
+  apply go_finds sp w _ j hj hknown _ pre post [start] [] hlen
+  intro hm
+  simp at hm
+  exact absurd hm hne
+
+/-- The core of "never left waiting with nothing pending" for fork/join shapes: when a task
+    completes in a RUNNING workflow, every join that is a direct successor of it in the
+    definition and has an execution row after that transaction gets a pending
+    "schedule a state refresh if needed" operation registered in the same transaction.
+    (Hypotheses: the join is among the first `walkFuel` on-clause targets of the task — true of
+    every validated definition, whose on-clauses have unique items — and the task does not
+    route to itself.) -/
+theorem direct_join_gets_refresh (sp : Spec) (w : World) (t : Tid) (ok : Bool) (r : TaskRow) (j : String)
+    (hwf : w.wf = .RUNNING) (hr : findTask w t = some r) (hrun : isCompleted r.state = false)
+    (hpend : w.pending.contains (.rpcResult t ok) = true)
+    (hjoin : (isJoin sp j).isSome = true)
+    (hknown : (sp.graph.tasks.find? (·.name == j)).isNone = false)
+    (hne : j ≠ t.1)
+    (hpos : ∃ pre post, outsOf sp t.1 = pre ++ j :: post ∧ pre.length < walkFuel sp)
+    (hself : ∀ p ∈ nextOf sp t.1 (if ok then St.SUCCESS else St.ERROR), p.1 ≠ t.1) :
+    let w' := step sp w (.deliver (.rpcResult t ok))
+    ∀ jr, findByName w' j = some jr → Item.postSchedRefresh (jr.name, jr.occ) ∈ w'.pending := by
+  intro w' jr hjr
+  have hid : r.name = t.1 ∧ r.occ = t.2 := by
+    unfold findTask at hr
+    have := List.find?_some hr
+    simpa using this
+  -- unfold the step down to completeTask
+  have hw' : w' = completeTask sp { w with pending := removeFirst w.pending (.rpcResult t ok) } r
+      (if ok then St.SUCCESS else St.ERROR) := by
+    show step sp w (.deliver (.rpcResult t ok)) = _
+    simp only [step, hpend, Bool.not_true, Bool.false_eq_true, if_false]
+    have hr' : findTask { w with pending := removeFirst w.pending (.rpcResult t ok) } t = some r := hr
+    simp only [hr']
+  -- name the world before _check_affected_tasks
+  let st : St := if ok then St.SUCCESS else St.ERROR
+  let w0 : World := { w with pending := removeFirst w.pending (.rpcResult t ok) }
+  have hnc : isCompleted w0.wf = false := by show isCompleted w.wf = false; rw [hwf]; decide
+  have hnp : isPaused w0.wf = false := by show isPaused w.wf = false; rw [hwf]; decide
+  let nt : List (String × String) := nextOf sp r.name st
+  let r1 : TaskRow :=
+    { r with state := st, nextTasks := nt, hasNext := !nt.isEmpty,
+             errorHandled := if st == .ERROR then nt.any (·.2 == "on-error") else r.errorHandled }
+  let w1 : World := { w0 with tasks := setTask w0.tasks r1 }
+  let w1' : World := { w1 with tasks := setTask w1.tasks { r1 with processed := true } }
+  let w1'' : World := if nt.isEmpty then { w1' with pending := w1'.pending ++ [.postCheck] } else w1'
+  let w2 : World := dispatch sp w1'' (nt.map fun (n, e) => { target := n, src := some ((r.name, r.occ), e) })
+  have hct : completeTask sp w0 r st = checkAffected sp w2 (r.name, r.occ) := by
+    unfold completeTask
+    simp only [hrun, hnc, hnp, Bool.false_eq_true, if_false]
+    rfl
+  have hw2wf : w2.wf = .RUNNING := by
+    show (dispatch sp w1'' _).wf = _
+    rw [dispatch_wf]
+    show w1''.wf = _
+    simp only [w1'']
+    split <;> exact hwf
+  -- the completed row of t is still there after the dispatch
+  have hfind1 : findTask w1'' t = some { r1 with processed := true } := by
+    have h1 : w1''.tasks = setTask (setTask w.tasks r1) { r1 with processed := true } := by
+      simp only [w1'']; split <;> rfl
+    unfold findTask
+    rw [h1, ← hid.1, ← hid.2]
+    have ha := find_setTask w.tasks r r1 rfl rfl (by unfold findTask at hr; rw [hid.1, hid.2]; exact hr)
+    exact find_setTask (setTask w.tasks r1) r1 { r1 with processed := true } rfl rfl ha
+  have hfind2 : findTask w2 t = some { r1 with processed := true } := by
+    show findTask (dispatch sp w1'' _) t = _
+    rw [findTask_dispatch_other]
+    · exact hfind1
+    · intro c hc
+      simp only [List.mem_map] at hc
+      obtain ⟨p, hp, rfl⟩ := hc
+      have := hself p (by rw [← hid.1]; exact hp)
+      exact this
+  have hrid : ((r.name, r.occ) : Tid) = t := by rw [hid.1, hid.2]
+  -- _check_affected_tasks registers the refresh of every affected join that has a row
+  have hjr2 : findByName w2 j = some jr := by
+    have : w'.tasks = w2.tasks := by rw [hw', hct]; exact (checkAffected_tasks sp w2 _).1
+    unfold findByName at hjr ⊢
+    rw [this] at hjr; exact hjr
+  have hjw : joinWithRow sp w2 j = true := by
+    unfold joinWithRow; rw [hjr2]; simp [hjoin]
+  have haff : j ∈ affected sp w2 r.name := by
+    rw [hid.1]
+    exact affected_contains_direct sp w2 t.1 j hjw hknown hne hpos
+  rw [hw', hct]
+  unfold checkAffected
+  rw [hrid, hfind2]
+  have hcomp : isCompleted ({ r1 with processed := true } : TaskRow).state = true := by
+    show isCompleted st = true
+    simp only [st]; split <;> decide
+  have hwfc : isCompleted w2.wf = false := by rw [hw2wf]; decide
+  simp only [hcomp, hwfc, Bool.not_true, Bool.false_eq_true, if_false]
+  apply List.mem_append_right
+  rw [List.mem_filterMap]
+  refine ⟨j, ?_, ?_⟩
+  · show j ∈ affected sp w2 ({ r1 with processed := true } : TaskRow).name
+    exact haff
+  · rw [hjr2]; rfl
 
 end Mistral.Props.C01
